@@ -1,1 +1,8 @@
-//! upstream model
+//! itsgen: model of the system upstream of fastPASTA (readout units + CRU merge), stream-fault
+//! catalogue, independent chain walker / decoder and reference models. See DESIGN.md §2.4.
+pub mod alpide;
+pub mod gen;
+pub mod rdh;
+pub mod walker;
+pub mod words;
+pub mod corrupt;
